@@ -1148,6 +1148,10 @@ func init() {
 				if strings.HasPrefix(a.Attr, "x-key:") {
 					return core.Fail("mapping-key-x-prefix-taken-as-extension", fmt.Sprintf("%s: a key starting with x- is kept by the KEY=VALUE list form but moved to #extensions by the mapping form", a.Attr))
 				}
+				if a.Other != nil && strings.HasSuffix(a.Attr, "extra_hosts") && core.CanonEqual(sortHostAddrs(r.Short.Ok), sortHostAddrs(r.Long.Ok)) {
+					// round 7 finding: the two projects differ only in the ORDER of the addresses of one host
+					return core.Fail("merged-mapping-host-addresses-reordered", fmt.Sprintf("%s (%s): override.convertIntoSequence sorts the `host=ip` lines of the mapping form, so a host with several addresses gets them in string order once a second document is merged, while the list form keeps the written order: short=%s long=%s", a.Attr, a.Mode, hostsOf(r.Short.Ok), hostsOf(r.Long.Ok)))
+				}
 				if a.Other != nil {
 					return core.Fail("short-ne-long-merged:"+a.Attr+":"+a.Mode, fmt.Sprintf("typed projects differ once a second document is merged (%s): short=%s long=%s", a.Mode, r.Short.Ok, r.Long.Ok))
 				}
@@ -1293,4 +1297,59 @@ func (a portA) nearMiss() bool {
 		}
 	}
 	return false
+}
+
+// walkHosts calls f on every address list found under a key "ExtraHosts" (services.*.extra_hosts and
+// services.*.build.extra_hosts in the canonicalised typed project)
+func walkHosts(v any, f func(host string, l []any)) {
+	switch t := v.(type) {
+	case map[string]any:
+		for k, x := range t {
+			if k == "ExtraHosts" {
+				if m, ok := x.(map[string]any); ok {
+					if mm, ok := m["#map"].(map[string]any); ok {
+						for h, l := range mm {
+							if ll, ok := l.([]any); ok {
+								f(h, ll)
+							}
+						}
+					}
+				}
+				continue
+			}
+			walkHosts(x, f)
+		}
+	case []any:
+		for _, x := range t {
+			walkHosts(x, f)
+		}
+	}
+}
+
+// sortHostAddrs: the canonicalised project with the addresses of every host sorted (used only to CLASSIFY a difference
+// that is already a failure: same addresses per host, another order)
+func sortHostAddrs(raw json.RawMessage) json.RawMessage {
+	var v any
+	if json.Unmarshal(raw, &v) != nil {
+		return raw
+	}
+	walkHosts(v, func(_ string, l []any) {
+		sort.Slice(l, func(i, j int) bool { return fmt.Sprint(l[i]) < fmt.Sprint(l[j]) })
+	})
+	b, err := json.Marshal(v)
+	if err != nil {
+		return raw
+	}
+	return b
+}
+
+func hostsOf(raw json.RawMessage) string {
+	var v any
+	if json.Unmarshal(raw, &v) != nil {
+		return "?"
+	}
+	var out []string
+	walkHosts(v, func(h string, l []any) { out = append(out, fmt.Sprintf("%s:%v", h, l)) })
+	sort.Strings(out)
+	return strings.Join(out, " ")
 }
